@@ -5,7 +5,7 @@ import struct
 
 from . import common as C
 
-NTYPES = 12
+NTYPES = 14
 
 
 def u64(n):
@@ -86,6 +86,23 @@ def gen_valid(k, rng):
         body += (b"\x01" + u64(0)) if has_reg else rng.choice([b"\x00", b"\x01" + u64((1 << 64) - 1)])
         body += enc_E(rng) + struct.pack("<d", rng.choice([0.0, -0.0, 1.5, float("inf"), 1e-310]))
         return body, atts
+    if k == 13:
+        # two receivers; with some probability both fields name the same attachment (a reused index: must be an error)
+        a, b = rng.sample([0, 1], 2)
+        if rng.random() < 0.35:
+            b = a
+        return u64(a) + u64(b), "rr"
+    if k == 14:
+        chans = ["r", "s"] + (["r"] if rng.random() < 0.6 else [])
+        rng.shuffle(chans)
+        ri = [i for i, c in enumerate(chans) if c == "r"]
+        si = chans.index("s")
+        body = u64(ri[0]) + u64(si)
+        if len(ri) > 1:
+            body += b"\x01" + u64(ri[1] if rng.random() < 0.6 else rng.choice([ri[0], si]))
+        else:
+            body += rng.choice([b"\x00", b"\x01" + u64(ri[0]), b"\x01" + u64(si)])
+        return body, "".join(chans)
     raise ValueError(k)
 
 
